@@ -10,6 +10,7 @@ From Coq Require Import String List Arith Bool ZArith.
 Import ListNotations.
 From NP Require Import Base Values Arrow Abs Kernels Logical ExtArray Codec Steps
   Proofs_Views Proofs_Codec Proofs_Fields Proofs_Steps Proofs_Extras.
+From NP Require Import Dtype Names Reduce2 Proofs_Reduce2.
 From NP Require Import Props.C03.
 
 Theorem C06_view_fields : forall p fs, inv_b p = true -> op_ok p (OViewFields fs) = true ->
@@ -80,6 +81,27 @@ Theorem C06_same_row_lengths : forall L nm ty c,
   lrow_lengths (spec_set_field L nm ty c) = lrow_lengths L.
 Proof. exact spec_set_field_lengths. Qed.
 Print Assumptions C06_same_row_lengths.
+
+(* frame['nest.field'] = value chooses between "one value per row" and "flat values" by comparing the value's index with
+   the frame's (Reduce2.m_setitem_route mirrors the test).  With DISTINCT labels the test cannot go wrong: if the index
+   of a flat value (= the labels repeated by the row lengths) equals the frame's index, every row holds exactly one
+   record, and then both routes store the same values.  With REPEATED labels it can (labels [5;5], row lengths [2;0]):
+   the open finding KF-flat-value-taken-as-per-row, an ambiguity of the interface rather than a slip of the code. *)
+Theorem C06_index_test_harmless_with_distinct_labels : forall (labels : list Z) lens,
+  NoDup labels -> length lens = length labels -> flat_repeat labels lens = labels ->
+  forallb (fun k => k =? 1) lens = true.
+Proof. exact equal_flat_index_means_one_record_per_row. Qed.
+Print Assumptions C06_index_test_harmless_with_distinct_labels.
+
+Theorem C06_routes_agree_with_one_record_per_row : forall (V : Type) (vals : list V) lens,
+  length vals = length lens -> forallb (fun k => k =? 1) lens = true -> flat_repeat vals lens = vals.
+Proof. exact routes_agree_when_one_record_per_row. Qed.
+Print Assumptions C06_routes_agree_with_one_record_per_row.
+
+Theorem C06_index_test_fooled_by_repeated_labels_refuted :
+  flat_repeat [5%Z; 5%Z] [2; 0] = [5%Z; 5%Z] /\ flat_repeat [10; 20] [2; 0] <> [10; 20].
+Proof. exact repeated_labels_fool_the_index_test. Qed.
+Print Assumptions C06_index_test_fooled_by_repeated_labels_refuted.
 
 Example C06_hypotheses_satisfiable :
   inv_b sample_col = true
